@@ -289,6 +289,14 @@ def impl(c):
     d = c['desc']
     if d['kind'] == 'helper':
         return ' '.join(_show({}, r) for r in _helper_calls(d['calls']))
+    if not _in_contract(d):
+        # a rule that consumes nothing: the documented loop never ends.  Bounded here (3 s) so that the expected
+        # non-termination is not mistaken for a load-induced timeout and re-run for minutes
+        import common
+        try:
+            return _show(d, common.with_timeout(_run_real, d, 3.0))
+        except CaseTimeout:
+            return '!TIMEOUT:spins'
     return _show(d, _run_real(d))
 
 
